@@ -355,8 +355,10 @@ def oracle(sc, obs):
             return "other"
         if P == "tcp" and receiver.eof_time is not None and receiver.eof_time <= rec[1]:
             return "proxy_had_sent_fin_to_receiver"   # eof_time is set by write_eof() only
-        if cs is not None and (hk is None or cs < hk[0]):
-            # before the message was recorded (it sat in the layer's queue) or while its hook was pending
+        if cs is not None:
+            # the receiver did not close/reset itself (else we would not be here), yet mitmproxy closed its connection
+            # before the message was recorded (it sat in the layer's queue), while its hook was pending, or before the
+            # hook's completion reached the layer
             return "proxy_closed_receiver_early"
         return "other"
 
@@ -485,7 +487,9 @@ def oracle(sc, obs):
         rst = P == "tcp" and bool(c.peer_reset or (s is not None and s.peer_reset))
         v.append(_V("no_end_hook", {"proto": P, "pending_hooks": sorted(set(obs.pending_hooks)),
                                     "client_handler_done": bool(obs.handler_done), "rst": rst,
-                                    "upstream_connect_completed": s is not None or errored},
+                                    "upstream_connected": s is not None,
+                                    "open_connection_completed_delivered": "open_completed" in obs.delivered,
+                                    "connection_closed_delivered": sorted(x[7:] for x in set(obs.delivered) if x.startswith("closed_"))},
                     f"flow never fired {P}_end/{P}_error by quiescence (client handler finished: {obs.handler_done}); "
                     f"hooks={names}; pending={obs.pending_hooks}"))
     if P == "udp" and term is not None and not any(e[2] == "peer_close" for e in obs.events):
